@@ -174,6 +174,16 @@ class _Collector(ast.NodeVisitor):
             return                      # do not descend: the .format call inside is already consumed
         self.generic_visit(node)
 
+    def visit_Assign(self, node):
+        # a line template kept in a variable and written later (gipsyx: line = "...\n".format(...))
+        v = node.value
+        if (isinstance(v, ast.Call) and isinstance(v.func, ast.Attribute) and v.func.attr == "format"
+                and isinstance(v.func.value, ast.Constant) and isinstance(v.func.value.value, str)
+                and v.func.value.value.endswith("\n") and not v.args):
+            self._push(fold_items(format_call_items(v, self.where), self.where))
+            return
+        self.generic_visit(node)
+
     def _arg(self, a):
         w = self.where
         if isinstance(a, ast.Constant) and isinstance(a.value, str):
